@@ -210,12 +210,13 @@ class Model:
         fd.methods['finalize'] = lambda recv: recv.attrs['__fd__'].call_function(self.finalize_fn, [], bound_self=recv)
         key = lambda fb: fb.attrs['__rank__']
         try:
-            out = fd.call_function(resolve_fn, [report, key])
+            resolver = self.decorated(fd, resolve_fn)
+            out = resolver(report, key)
             if then is not None:
                 # the same report is resolved again after its visibility changed (an environment resolves on exit
                 # although the script already did; an instructor mutes or suppresses something in between)
                 then(fbs, report)
-                out = fd.call_function(resolve_fn, [report, key])
+                out = resolver(report, key)
         except Raised as r:
             return ('raised', r.kind, r.detail)
         if isinstance(out, dict):
@@ -233,6 +234,55 @@ class Model:
         return {'label': a.get('label'), 'title': a.get('title'), 'message': a.get('message'),
                 'correct': a.get('correct'), 'score': a.get('score'), 'category': a.get('category')}
 
+    def suppress_tables(self, *calls_):
+        """(suppressions, suppressed_labels) as Report.suppress itself builds them (executed abstractly) for the given
+        keyword-argument dicts, applied in order to one report."""
+        from ..fdeval import module_resolver
+        rmod = self.ctx.repo.module('pedal.core.report')
+        fn = rmod.func('Report.suppress')
+        self.ctx.analysed_function(rmod, fn)
+        rep = Obj('Report', suppressions={}, suppressed_labels={})
+        rep.attrs['__classdef__'] = rmod.cls('Report')
+        for kwargs in calls_:
+            fd0 = FD(max_steps=100000, resolver=module_resolver(self.sym, rmod))
+            fd0.calls['isinstance'] = lambda o, t: isinstance(o, t) if isinstance(t, (type, tuple)) else False
+            try:
+                fd0.call_function(fn, [], dict(kwargs), bound_self=rep)
+            except Inconclusive as e:
+                raise AnalysisError("Report.suppress outside the decidable fragment: %s" % e)
+        return rep.attrs['suppressions'], rep.attrs['suppressed_labels']
+
+    def decorated(self, fd, resolve_fn):
+        """The resolver as callers get it: resolve() wrapped by its own decorators (make_resolver), each interpreted."""
+        from ..astutil import dotted
+
+        def call(*a, **k):
+            return fd.call_function(resolve_fn, list(a), k)
+        call._fd_callable = True
+        mod = getattr(resolve_fn, '_module', None)
+        for deco in reversed(resolve_fn.decorator_list):
+            name = dotted(deco)
+            target = self.sym.resolve_name(mod, name) if (mod is not None and name) else None
+            if not (isinstance(target, tuple) and target and target[0] == 'func'):
+                raise Inconclusive('driver: decorator %s of resolve() does not resolve to a pedal function' % (
+                    name or ast.unparse(deco)))
+            main = Obj('MAIN_REPORT', result=None)
+            main.attrs['method:execute_hooks'] = lambda *a, **k: None
+            saved = fd.resolver
+
+            def with_main(n, saved=saved, main=main):
+                if n == 'MAIN_REPORT':
+                    return main
+                return saved(n)
+            fd.resolver = with_main
+            try:
+                call = fd.call_function(target[2], [call])
+            finally:
+                fd.resolver = saved
+            if not callable(call):
+                raise Inconclusive('driver: decorator %s did not return a callable' % name)
+        return call
+
     # -- oracle (transcribed from C01/C02/C03) ---------------------------------------------------
     def suppressed(self, cfg, suppressions, suppressed_labels):
         cat = (cfg['category'] or '').lower()
@@ -249,6 +299,20 @@ class Model:
                 if all(cfg.get('fields', {}).get(k) == v for k, v in fields.items()):
                     return True
         return False
+
+    def oracle_by_calls(self, cfgs, calls_):
+        """The oracle for suppressions given as suppress(...) calls: category (case-insensitive) alone hides the whole
+        category, category + label hides that label (case-insensitive) when the given fields match, a label alone
+        hides feedback with exactly that label when the given fields match."""
+        s, sl = {}, {}
+        for kw_ in calls_:
+            cat, label, fields = kw_.get('category'), kw_.get('label', True), kw_.get('fields') or {}
+            if cat is None:
+                sl.setdefault(label, []).append(dict(fields))
+            else:
+                key = label.lower() if isinstance(label, str) else label
+                s.setdefault(cat.lower(), {}).setdefault(key, []).append(dict(fields))
+        return self.oracle(cfgs, s, sl)
 
     def oracle(self, cfgs, suppressions=None, suppressed_labels=None):
         suppressions = suppressions or {}
